@@ -297,3 +297,30 @@ func VT_C04_LateSubscriberAfterCancelledOne() {
 	}
 	vt.Reach("done")
 }
+
+// The seed of a subscription opened after a write carries that write's change time: the WithWriteTime instant when one
+// was given (Value and Collection item), and the initial/creation time otherwise.
+func VT_C04_SeedCarriesStoredChangeTime() {
+	wt := vt.Time("writeTime")
+	ctx, cancel := context.WithCancel(context.Background())
+	defer cancel()
+	if vt.Choose("resource", 2) == 0 {
+		v := NewValue(WithClock(vtClock4{}), WithInitialValue(vtT4("init")))
+		_, err := v.Set(vtT4("w"), WithWriteTime(wt))
+		vt.Assert(err == nil, "write-succeeds")
+		if vt.Choose("thenFailedWrite", 2) == 1 {
+			// a failing write must not touch the stored change time either
+			_, err = v.Set(vtT4("w2"), WithWriteTime(vt.Time("otherTime")), WithExpectedValue(&T4{DefaultInt32: 1, DefaultInt64: 99}))
+			vt.Assert(err != nil, "write-with-a-false-precondition-fails")
+		}
+		seed := <-v.Pull(ctx, WithBackpressure(true))
+		vt.Assert(seed.ChangeTime.Equal(wt), "value-seed-carries-the-stored-change-time")
+	} else {
+		c := NewCollection(WithClock(vtClock4{}), WithInitialRecord("a", vtT4("init")))
+		_, err := c.Update("a", vtT4("w"), WithWriteTime(wt))
+		vt.Assert(err == nil, "write-succeeds")
+		seed := <-c.Pull(ctx, WithBackpressure(true))
+		vt.Assert(seed.ChangeTime.Equal(wt), "collection-seed-carries-the-item-stored-change-time")
+	}
+	vt.Reach("done")
+}
